@@ -4,7 +4,7 @@ import random
 
 from .. import core, lifecheck as L
 
-PLACES = ["top", "meth", "inner_meth", "made", "deco"]
+PLACES = ["top", "meth", "inner_meth", "made", "deco", "way", "lid_open"]
 
 
 def to_ops(hist):
